@@ -117,6 +117,33 @@ def run_case(spec):
             if seqs != sorted(seqs):
                 res.fail('order', '%s: updates applied out of invocation order'
                          % name)
+        # the toggler's set-updates (False included) are updates too: each
+        # one is applied exactly once, in order, at the end of its interval
+        if any(p.get('cond_state') for p in spec['procs']):
+            returned_flags = {}
+            start = spec['t0']      # the toggler's intervals are contiguous
+            for ev in ctx.log:
+                if ev[0] == 'toggle' and len(ev) >= 6:
+                    end = start + ev[4]
+                    if not exact:
+                        end = round(end, spec['precision'])
+                    start = end
+                    if end <= final + (0 if exact else 1e-9):
+                        for n, val in ev[5].items():
+                            returned_flags.setdefault(n, []).append((end, val))
+            applied_flags = {}
+            for seq, tag, t, value in parsed['applies']:
+                if tag.startswith('flag:'):
+                    applied_flags.setdefault(tag[5:], []).append((t, value))
+            for n, want in returned_flags.items():
+                got = applied_flags.get(n, [])
+                if [v for _, v in got] != [v for _, v in want] or any(
+                        not close(a[0], b[0], exact) for a, b in zip(got, want)):
+                    res.fail('lost', 'condition flag %r: the toggler returned '
+                             '(interval end, value) %r, applied were %r'
+                             % (n, want, got), 'store.py:apply_update')
+                    break
+            res.label('state_condition')
         for name, polls in parsed['polls'].items():
             for rec in polls:
                 if rec.cond is False and rec.token is not None:
